@@ -216,7 +216,8 @@ func largeBand() {
 
 // ---- part 4: power-table scaling and three-way agreement ----------------------------------------------
 
-var magnitudes = []string{"1", "2", "3", "10", "65535", "65536", "18446744073709551616", "1000000000000000000000000000000"}
+// 1, 3, 10, 2^16-1, 2^16, 2^32, 2^48+1, 2^56, 2^62, 2^63-1, 2^64, 10^30 (word-size boundaries matter for any fixed-width shortcut)
+var magnitudes = []string{"1", "3", "10", "65535", "65536", "4294967296", "281474976710657", "72057594037927936", "4611686018427387904", "9223372036854775807", "18446744073709551616", "1000000000000000000000000000000"}
 
 func scaling(thorough bool) {
 	keys := vfix.NewKeys(8)
@@ -437,7 +438,7 @@ func main() {
 		chk.Sample(map[string]any{"fn": "scaling+agreement", "magnitudes": []string{"1", "65536", "10^30"}, "all signer subsets": true})
 	}
 	chk.Set("exhaustive", chk.Violations() == 0)
-	chk.Set("rule", "all (whole<=65535, part<=whole) pairs for IsStrongQuorum/hasWeakQuorum/intersection; all (whole,support,other) triples for small whole plus the 2/3 and 1/3 boundary bands for every whole through a real quorumState; int64 bands at every power of two up to 2^61; all power tables with n<=3 (thorough: 4) over 8 magnitudes with every signer subset through certificate validator, message validator and tally; distinct_nontrivial counts distinct tally triples and power tables")
+	chk.Set("rule", "all (whole<=65535, part<=whole) pairs for IsStrongQuorum/hasWeakQuorum/intersection; all (whole,support,other) triples for small whole plus the 2/3 and 1/3 boundary bands for every whole through a real quorumState; int64 bands at every power of two up to 2^61; all power tables with n<=3 (thorough: 4) over 12 magnitudes (1 .. 10^30 incl. 2^32, 2^48, 2^56, 2^62, 2^63-1, 2^64) with every signer subset through certificate validator, message validator and tally; distinct_nontrivial counts distinct tally triples and power tables")
 	chk.Assume("exact reference arithmetic: 3*part >= 2*whole in int64 (no overflow below 2^61) and math/big")
 	chk.Assume("whole >= 2^62 excluded: 2*whole overflows int64 there; scaled totals never exceed 65535 (checked in part 4)")
 	if chk.Violations() > 0 {
